@@ -410,3 +410,23 @@ def conditional_guard(ctx, key, b, sinks, cond_spec, then_specs, desc, rule='R-d
             return False
     ctx.ok(key, rule, desc, function=b.path, guards=[site(b, c) for c in cs], sinks=[site(b, s) for s in sinks])
     return True
+
+
+def salt_fed_at_every_hasher(ctx, P):
+    """R-sib over every function that creates a signature hasher: one v6-salt feed per HashAlgorithm::new_hasher call, each
+    dominated by the salt-length-vs-algorithm check where the salt comes from the wire."""
+    n = 0
+    for p, r in sorted(ctx.f.bodies.items()):
+        if p.startswith('types::s2k::'):
+            continue  # S2K hashing has no signature salt (reviewed: not a signature hasher)
+        b = ctx.wrap(r)
+        nh = b.calls(r'HashAlgorithm::new_hasher$')
+        if not nh:
+            ctx.functions.discard(p)
+            continue
+        n += 1
+        salt = [i for i, t in b.calls(r'DynDigest::update$')
+                if any(has_origin(b.operand_origins(a), r'field:(SignatureVersionSpecific|OpsVersionSpecific)::V6\.salt$') for a in t['args'][1:])]
+        ctx.check('%s:salt-per-hasher:%s' % (P, p), 'R-sib', 'every signature hasher created in %s is fed the v6 salt on the V6 branch (one feed per new_hasher call)' % p.split('::')[-1],
+                  len(salt) >= len(nh), function=p, count=len(salt), missing=None if len(salt) >= len(nh) else '%d hashers, %d salt feeds' % (len(nh), len(salt)))
+    ctx.floor(P + ':salt-per-hasher:floor', 'functions creating signature hashers', n, 11)
